@@ -415,6 +415,11 @@ bool ManifestParser::ParseEdge(string* err) {
     CanonicalizePath(&dyndep, &slash_bits);
     edge->dyndep_ = state_->GetNode(dyndep, slash_bits);
     edge->dyndep_->set_dyndep_pending(true);
+    // DyndepLoader::UpdateEdge() binds "restat" in edge->env_.  When the
+    // "dyndep" binding comes from the rule and the edge has no bindings of
+    // its own, env_ is still the scope of the whole file: give it its own.
+    if (edge->env_ == env_)
+      edge->env_ = new BindingEnv(env_);
     vector<Node*>::iterator dgi =
       std::find(edge->inputs_.begin(), edge->inputs_.end(), edge->dyndep_);
     if (dgi == edge->inputs_.end()) {
